@@ -21,6 +21,7 @@ import (
 	"github.com/istio-ecosystem/authservice/internal"
 	inthttp "github.com/istio-ecosystem/authservice/internal/http"
 	"github.com/istio-ecosystem/authservice/zzverif/ev"
+	"github.com/istio-ecosystem/authservice/zzverif/hidden"
 	"github.com/istio-ecosystem/authservice/zzverif/schedx"
 	"github.com/istio-ecosystem/authservice/zzverif/seqx"
 	"github.com/istio-ecosystem/authservice/zzverif/vsched"
@@ -343,7 +344,8 @@ func c20Model(run *ev.Run, settings []string) seqx.Model {
 				tr = append(tr, k)
 			}
 			sort.Strings(tr)
-			return fmt.Sprintf("content=%s|hist=%s|tickers=%d|tried=%v|%s", s.content, h, vtime.Live(), tr, strings.Join(parts, ","))
+			return fmt.Sprintf("content=%s|hist=%s|tickers=%d|tried=%v|%s|%s", s.content, h, vtime.Live(), tr, strings.Join(parts, ","),
+				hidden.Dump(s.pool, "log", "mu", "ctx", "configs"))
 		},
 	}
 }
